@@ -80,6 +80,7 @@ structure Run where
   cancelAt : Option (String × Nat) := none   -- scripted cancellation point: the k-th occurrence of an event ("fn", "rp.onRetryScheduled")
   cancelCause : Err := Err.canceled          -- what the scripted cancellation reports (context.Canceled / ErrExecutionCanceled)
   seenAt : Nat := 0                -- occurrences of the cancellation point's event so far
+  hedgeAttempt : Bool := false     -- the execution copy the function currently runs on was made by `CopyForHedge` (`IsHedge`)
 deriving Repr
 
 abbrev Layer := Run → Option (PR × Run)
@@ -154,7 +155,8 @@ def Run.trigger (r : Run) (name : String) : Run :=
 outcome is released by the enclosing Timeout's timer: listener, then `Cancel(timeoutResult)`. -/
 def base : Layer := fun r =>
   -- the function observes the last recorded outcome of its execution
-  let r := (r.emitSeen "fn" 0 r.seenLast).trigger "fn"
+  -- `IsHedge` of the execution the function is handed is part of the event (`fnh`)
+  let r := (r.emitSeen (if r.hedgeAttempt then "fnh" else "fn") 0 r.seenLast).trigger "fn"
   match r.script with
   | [] => some (fnResult 0 none, { r with inv := r.inv + 1, execs := r.execs + 1 })
   | it :: rest =>
@@ -233,14 +235,14 @@ def limAcquire (c : LimCfg) (s : LimSt) (now : Int) : Bool × LimSt :=
 def hedgeLoop (pos maxHedges : Nat) (cancelOn : List Cond) (inner : Layer) : Nat → Nat → Nat → Nat → Layer
   | 0, _, _, _ => fun _ => none
   | fuel + 1, k, done, blocked => fun r =>
-    -- start attempt k (k = 0: the first attempt, no event; k ≥ 1: a hedge)
-    let r := if k == 0 then r else
-      ({ r with attempts := r.attempts + 1, hedges := r.hedges + 1 }).emit "hp.onHedge" pos
+    -- start attempt k (k = 0: the first attempt, no event; k ≥ 1: a hedge, run on a `CopyForHedge` copy)
+    let r := if k == 0 then { r with hedgeAttempt := false } else
+      ({ r with attempts := r.attempts + 1, hedges := r.hedges + 1, hedgeAttempt := true }).emit "hp.onHedge" pos
     match r.script with
     | it :: _ =>
       if it.blocks then
         -- the attempt blocks; its function has been entered (and has observed the last recorded outcome)
-        let r := r.emitSeen "fn" 0 r.seenLast
+        let r := r.emitSeen (if r.hedgeAttempt then "fnh" else "fn") 0 r.seenLast
         let r := { r with script := r.script.drop 1, inv := r.inv + 1 }
         if k < maxHedges then hedgeLoop pos maxHedges cancelOn inner fuel (k + 1) done (blocked + 1) r
         else
